@@ -103,7 +103,9 @@ class C09(Check):
         return (100, 8) if tier == 'quick' else (800, 16)
 
     def strategy(self, tier):
-        return st.fixed_dictionaries(dict(spec=GL.lens_spec(IMG, min_surfs=2), dist=st.sampled_from(DISTS),
+        lens = st.tuples(GL.lens_spec(IMG, min_surfs=2), st.floats(0.0, 1.0), st.integers(0, 5)).map(
+            lambda t: GL.remote_stop(t[0], t[1]) if t[2] == 0 else t[0])
+        return st.fixed_dictionaries(dict(spec=lens, dist=st.sampled_from(DISTS),
                                           n=st.integers(0, 60), fld=st.integers(0, 5), wl=st.integers(0, 3),
                                           extras=st.booleans(),
                                           edit=edit_strategy(('index', 'radius', 'thickness', 'conic'), p_none=4)))
